@@ -279,6 +279,9 @@ type Result struct {
 	Model   string
 	Output  string
 	Attempt []string
+	// cross-check outcome: "" (not run), "agree" (another solver also says unsat), "single" (the
+	// others gave no verdict), "disagree" (another solver says sat)
+	Cross string
 }
 
 type SolverCfg struct {
@@ -286,6 +289,9 @@ type SolverCfg struct {
 	TimeoutMs int
 	Seed      int
 	Jobs      int
+	// CrossCheck (thorough tier): every "unsat" is re-examined by the other solvers; a "sat" from
+	// any of them is a disagreement and the obligation is not counted as discharged.
+	CrossCheck bool
 }
 
 type solverSpec struct {
@@ -496,6 +502,39 @@ func modelPart(out string) string {
 	return strings.TrimSpace(out[i+1:])
 }
 
+// crossCheck asks the other solvers for a second opinion on a discharged query.
+func crossCheck(ctx context.Context, cfg *SolverCfg, q *Query, res *Result) {
+	if !cfg.CrossCheck || q.Expect != "" || res.Status != "unsat" || res.Solver == "simplifier" {
+		return
+	}
+	text := q.Text(true)
+	budget := cfg.TimeoutMs
+	if budget > 20000 {
+		budget = 20000
+	}
+	res.Cross = "single"
+	for _, name := range solverOrder(q) {
+		if name == res.Solver {
+			continue
+		}
+		st, out, ms := runSolver(ctx, cfg, name, text, budget)
+		res.Attempt = append(res.Attempt, fmt.Sprintf("cross:%s:%s:%dms", name, st, ms))
+		switch st {
+		case "unsat":
+			if res.Cross != "disagree" {
+				res.Cross = "agree"
+			}
+		case "sat":
+			res.Cross = "disagree"
+			res.Status = "sat"
+			res.Output = "SOLVER DISAGREEMENT: " + res.Solver + " says unsat, " + name + " says sat\n" + out
+			res.Model = modelPart(out)
+			res.Solver = name
+			return
+		}
+	}
+}
+
 // SolveAll runs queries on cfg.Jobs workers.
 func SolveAll(ctx context.Context, cfg *SolverCfg, qs []*Query) []*Result {
 	results := make([]*Result, len(qs))
@@ -508,6 +547,7 @@ func SolveAll(ctx context.Context, cfg *SolverCfg, qs []*Query) []*Result {
 			defer wg.Done()
 			defer func() { <-sem }()
 			results[i] = Solve(ctx, cfg, q)
+			crossCheck(ctx, cfg, q, results[i])
 		}(i, q)
 	}
 	wg.Wait()
